@@ -266,7 +266,12 @@ def check_code(ops_spec, excs):
         problems.append("no POP_BLOCK immediately after %d" % en)
   if problems:
     return problems
-  # --- blocks ---
+  return problems + check_blocks(ops, pops)
+
+
+def check_blocks(ops, pops):
+  """Block-graph part of the property for an arbitrary opcode list."""
+  problems = []
   try:
     blocks.add_pop_block_targets(ops)
   except AssertionError as e:
@@ -400,3 +405,138 @@ def explain(fn, t):
                            for i, (k, tg, g) in enumerate(ops_spec)],
           "exception_table (start..end[+gap] => target, lasti)": excs,
           "problems": problems}
+
+
+# ------------------------------------------------ h_real: real compiler output
+
+# Programs generated from selectors are compiled by CPython (untraced set-up:
+# pyc.compile_src + pycnite disassembly); every code object then goes through
+# the real build_opcodes / add_pop_block_targets / compute_order (traced) and
+# the same block-graph checks, plus link and jump-resolution checks that need
+# no spec.  Async / generator constructs are not generated (outside the claim).
+
+from pytype import config as _config          # noqa: E402
+from pytype.pyc import pyc as _pyc            # noqa: E402
+from pycnite import bytecode as _bytecode     # noqa: E402
+
+_OPTS = _config.Options.create()
+
+STMTS = [
+    "pass",
+    "x = foo(x)",
+    "return x",
+    "raise E(x)",
+    "continue",
+    "break",
+    "if c:\n  x = 1\nelse:\n  x = 2",
+    "if c:\n  return 1",
+    "for i in y:\n  x = i",
+    "while c:\n  x = foo(x)",
+    "while True:\n  x = pop()",
+    "with m as v:\n  x = v",
+    "x = [i for i in y]",
+    "x = a and b or c",
+]
+WRAPS = [
+    "%s",
+    "try:\n%s\nexcept E:\n  x = 0",
+    "try:\n%s\nfinally:\n  x = 0",
+    "try:\n%s\nexcept E:\n  raise\nelse:\n  x = 3\nfinally:\n  x = 0",
+    "with m:\n%s",
+    "try:\n  try:\n%s\n  except K:\n    pass\nexcept E:\n  x = 0",
+]
+NSTMT = param("C16_NSTMT", quick=8, thorough=len(STMTS))
+NWRAP = param("C16_NWRAP", quick=4, thorough=len(WRAPS))
+REAL_SEL = Tuple[(int,) * 5]   # stmt1, stmt2, wrap, in_loop, tail
+
+
+def real_ok(t):
+  return all([inrange(t[0], 0, NSTMT), inrange(t[1], 0, NSTMT), inrange(t[2], 0, NWRAP),
+              inrange(t[3], 0, 2), inrange(t[4], 0, 2)])
+
+
+def real_key(t):
+  return t[0] + 14 * (t[1] + 14 * (t[2] + 6 * (t[3] + 2 * t[4])))
+
+
+def _indent(text, n):
+  return "\n".join(" " * n + line for line in text.split("\n"))
+
+
+def real_source(t):
+  s1, s2 = STMTS[conc(t[0], NSTMT)], STMTS[conc(t[1], NSTMT)]
+  wrap = WRAPS[conc(t[2], NWRAP)]
+  in_loop = conc(t[3], 2)
+  tail = conc(t[4], 2)
+  body = s1 + "\n" + s2
+  if (("continue" in body or "break" in body) and not in_loop):
+    return None   # would not compile outside a loop
+  extra = 2 if wrap.count("%s") and "  try:\n%s" in wrap else 0
+  body = wrap % _indent(body, 2 + extra) if "%s" in wrap else body
+  if in_loop:
+    body = "for j in y:\n" + _indent(body, 2)
+  src = "def f(x, y, c, m, a, b):\n" + _indent(body, 2) + "\n"
+  if tail:
+    src += "  return x\n"
+  return src
+
+
+@untraced
+def disassemble(src):
+  code = _pyc.compile_src(src, "t.py", _OPTS.python_version, _OPTS.python_exe, mode="exec")
+  out = []
+
+  def walk(dc):
+    out.append(dc)
+    for c in dc.children:
+      walk(c)
+
+  walk(_bytecode.dis_all(code))
+  return out
+
+
+def check_real(dc):
+  problems = []
+  ops = opcodes.build_opcodes(dc)
+  n = len(ops)
+  if [op.index for op in ops] != list(range(n)):
+    problems.append("indices are not 0..n-1")
+  for i, op in enumerate(ops):
+    if op.prev is not (ops[i - 1] if i else None) or op.next is not (ops[i + 1] if i + 1 < n else None):
+      problems.append("prev/next links inconsistent at %d" % i)
+    if op.has_known_jump() and not isinstance(op, opcodes.SETUP_EXCEPT_311):
+      if op.target is None:
+        problems.append("jump %d (%s) has no resolved target" % (i, op.name))
+      elif op.target is not ops[op.arg]:
+        problems.append("jump %d: arg does not index its target" % i)
+  pops = [op for op in ops if isinstance(op, opcodes.POP_BLOCK)]
+  if problems:
+    return problems
+  return check_blocks(ops, pops)
+
+
+def h_real(t: REAL_SEL) -> bool:
+  """
+  pre: real_ok(t)
+  pre: shard_ok(real_key(t))
+  post: check_post(_)
+  """
+  src = real_source(t)
+  if src is None:
+    return True
+  problems = []
+  try:
+    dcs = disassemble(src)
+  except Exception:  # pylint: disable=broad-except
+    return True      # the generated text does not compile (e.g. `return` in a finally-guarded loop)
+  for dc in dcs:
+    INFO.clear()
+    try:
+      pr = check_real(dc)
+    except Skip:
+      pr = []
+    if pr and kf_skip(kf_class(None, None, pr)):
+      pr = []
+    problems += ["%s: %s" % (dc.name, p) for p in pr]
+  record("R %r N" % (src,))
+  return not problems
